@@ -6,6 +6,7 @@ import (
 	"fmt"
 	"io"
 	"os"
+	"syscall"
 	"time"
 
 	"github.com/spf13/afero"
@@ -24,6 +25,22 @@ type Fault struct {
 	Kind    string `json:"kind"`           // err | partial_err | short_nil | early_eof
 	Arg     int    `json:"arg,omitempty"`  // bytes delivered before the failure
 	Persist bool   `json:"persist,omitempty"`
+	// Errno gives the error an identity the operating system would give it: "" = the harness sentinel, otherwise an
+	// *os.PathError around ENOENT / EINTR / EIO (what errors.Is and os.IsNotExist look at).
+	Errno string `json:"errno,omitempty"`
+}
+
+// E is the error the failed call returns.
+func (f *Fault) E() error {
+	switch f.Errno {
+	case "enoent":
+		return &os.PathError{Op: "simulated", Path: "simulated", Err: syscall.ENOENT}
+	case "eintr":
+		return &os.PathError{Op: "simulated", Path: "simulated", Err: syscall.EINTR}
+	case "eio":
+		return &os.PathError{Op: "simulated", Path: "simulated", Err: syscall.EIO}
+	}
+	return ErrInjected
 }
 
 // Call kinds.
@@ -173,6 +190,8 @@ type SimSigner struct {
 	// Delay is the simulated latency of the signing device (a token, an HSM):
 	// the simulated clock advances by this much while Sign is in progress.
 	Delay time.Duration
+	// FailNext: the device refuses the next request.
+	FailNext bool
 }
 
 func (s *SimSigner) Public() crypto.PublicKey { return s.inner.Public() }
@@ -183,6 +202,10 @@ func (s *SimSigner) Sign(rand io.Reader, digest []byte, opts crypto.SignerOpts) 
 		s.p.yield("signer.Sign:enter")
 	}
 	if f := s.p.hit(cSign); f != nil {
+		return nil, f.E()
+	}
+	if s.FailNext {
+		s.FailNext = false
 		return nil, ErrInjected
 	}
 	if s.Delay > 0 {
@@ -226,9 +249,9 @@ func (r *SimReader) ReadAt(b []byte, off int64) (int, error) {
 					n = 0
 				}
 				copy(b[:n], r.data[off:])
-				return n, ErrInjected
+				return n, f.E()
 			default:
-				return 0, ErrInjected
+				return 0, f.E()
 			}
 		}
 	}
@@ -347,8 +370,8 @@ func (s *SimFs) rec(e FsEvent) {
 func (s *SimFs) open(call, name string, flag int, perm os.FileMode, do func() (afero.File, error)) (afero.File, error) {
 	s.y(call)
 	if f := s.p.hit(call); f != nil {
-		s.rec(FsEvent{Call: call, Path: name, Flags: flag, Perm: perm, Err: ErrInjected.Error()})
-		return nil, ErrInjected
+		s.rec(FsEvent{Call: call, Path: name, Flags: flag, Perm: perm, Err: f.E().Error()})
+		return nil, f.E()
 	}
 	f, err := do()
 	if err != nil {
@@ -419,8 +442,8 @@ func (s *SimFs) Chtimes(name string, a, m time.Time) error {
 func (s *SimFs) Stat(name string) (os.FileInfo, error) {
 	s.y(cFsStat)
 	if f := s.p.hit(cFsStat); f != nil {
-		s.rec(FsEvent{Call: cFsStat, Path: name, Err: ErrInjected.Error()})
-		return nil, ErrInjected
+		s.rec(FsEvent{Call: cFsStat, Path: name, Err: f.E().Error()})
+		return nil, f.E()
 	}
 	fi, err := s.inner.Stat(name)
 	s.rec(FsEvent{Call: cFsStat, Path: name, Err: errStr(err)})
@@ -443,7 +466,7 @@ func (f *simFile) Close() error {
 	flt := f.fs.p.hit(cClose)
 	err := f.File.Close() // the handle is released either way, as close(2) does
 	if flt != nil {
-		err = ErrInjected
+		err = flt.E()
 	}
 	e.Err = errStr(err)
 	f.fs.rec(e)
@@ -454,9 +477,9 @@ func (f *simFile) Stat() (os.FileInfo, error) {
 	f.fs.y(cStat)
 	e := f.ev(cStat)
 	if flt := f.fs.p.hit(cStat); flt != nil {
-		e.Err = ErrInjected.Error()
+		e.Err = flt.E().Error()
 		f.fs.rec(e)
-		return nil, ErrInjected
+		return nil, flt.E()
 	}
 	fi, err := f.File.Stat()
 	e.Err = errStr(err)
@@ -493,17 +516,17 @@ func (f *simFile) Read(p []byte) (int, error) {
 				k = 0
 			}
 			n, _ := f.File.Read(q[:k])
-			e.N, e.Err = n, ErrInjected.Error()
+			e.N, e.Err = n, flt.E().Error()
 			f.fs.rec(e)
-			return n, ErrInjected
+			return n, flt.E()
 		case "early_eof":
 			e.N, e.Err = 0, "EOF(injected)"
 			f.fs.rec(e)
 			return 0, io.EOF
 		default:
-			e.Err = ErrInjected.Error()
+			e.Err = flt.E().Error()
 			f.fs.rec(e)
-			return 0, ErrInjected
+			return 0, flt.E()
 		}
 	}
 	n, err := f.File.Read(q)
@@ -517,9 +540,9 @@ func (f *simFile) ReadAt(p []byte, off int64) (int, error) {
 	e.Len = len(p)
 	e.Detail = fmt.Sprintf("off=%d", off)
 	if flt := f.fs.p.hit(cReadAtF); flt != nil {
-		e.Err = ErrInjected.Error()
+		e.Err = flt.E().Error()
 		f.fs.rec(e)
-		return 0, ErrInjected
+		return 0, flt.E()
 	}
 	n, err := f.File.ReadAt(p, off)
 	e.N, e.Err = n, errStr(err)
@@ -554,23 +577,23 @@ func (f *simFile) Write(p []byte) (int, error) {
 		case "err_full":
 			// every byte was taken and the device still reports a failure (e.g. the firmware rejected the update)
 			n, _ := f.File.Write(p)
-			e.N, e.Err = n, ErrInjected.Error()
+			e.N, e.Err = n, flt.E().Error()
 			f.fs.rec(e)
-			return n, ErrInjected
+			return n, flt.E()
 		case "partial_err":
 			n, _ := f.File.Write(p[:k])
-			e.N, e.Err = n, ErrInjected.Error()
+			e.N, e.Err = n, flt.E().Error()
 			f.fs.rec(e)
-			return n, ErrInjected
+			return n, flt.E()
 		case "short_nil":
 			n, _ := f.File.Write(p[:k])
 			e.N, e.Detail = n, "short count, nil error (injected)"
 			f.fs.rec(e)
 			return n, nil
 		default:
-			e.Err = ErrInjected.Error()
+			e.Err = flt.E().Error()
 			f.fs.rec(e)
-			return 0, ErrInjected
+			return 0, flt.E()
 		}
 	}
 	n, err := f.File.Write(p)
@@ -584,9 +607,9 @@ func (f *simFile) WriteAt(p []byte, off int64) (int, error) {
 	e.Buf = append([]byte(nil), p...)
 	e.Detail = fmt.Sprintf("off=%d", off)
 	if flt := f.fs.p.hit(cWriteAt); flt != nil {
-		e.Err = ErrInjected.Error()
+		e.Err = flt.E().Error()
 		f.fs.rec(e)
-		return 0, ErrInjected
+		return 0, flt.E()
 	}
 	n, err := f.File.WriteAt(p, off)
 	e.N, e.Err = n, errStr(err)
@@ -608,9 +631,9 @@ func (f *simFile) Seek(off int64, whence int) (int64, error) {
 	e := f.ev(cSeek)
 	e.Detail = fmt.Sprintf("off=%d whence=%d", off, whence)
 	if flt := f.fs.p.hit(cSeek); flt != nil {
-		e.Err = ErrInjected.Error()
+		e.Err = flt.E().Error()
 		f.fs.rec(e)
-		return 0, ErrInjected
+		return 0, flt.E()
 	}
 	n, err := f.File.Seek(off, whence)
 	e.Err = errStr(err)
